@@ -959,7 +959,7 @@ def c05(W, replay=None):
     if not replay:
         design_mc(W, "c05-design", ["TokensOnlyUnderIssued"])
         fam = family(W, "C05")
-        scen = fam + c05_fault_sweep(fam) + replica_family(W) + env_std(W) + debug_family(W) + attacker_family(W, 400 if W.tier == "thorough" else 80) + decoy_family(W) + parallel_family(W, 200 if W.tier == "thorough" else 20)
+        scen = fam + c05_fault_sweep(fam) + replica_family(W) + env_std(W) + debug_family(W) + family(W, "C04", "quick") + attacker_family(W, 400 if W.tier == "thorough" else 80) + decoy_family(W) + parallel_family(W, 200 if W.tier == "thorough" else 20)
         if W.tier == "thorough":
             scen += random_histories(W, 500)
     return sys_pipeline("C05", W, scen, None, ASSUME_SYS, replay=replay)
@@ -1036,7 +1036,7 @@ def c15(W, replay=None):
     W.build()
     scen = []
     if not replay:
-        scen = family(W, "C15") + discovery_family(W) + after_deny_family(W) + hammer_family(W) + env_std(W) + debug_family(W)
+        scen = family(W, "C15") + discovery_family(W) + after_deny_family(W) + hammer_family(W) + env_std(W) + debug_family(W) + family(W, "C04", "quick")
         if W.tier == "thorough":
             scen += random_histories(W, 500, faults=True)
     return sys_pipeline("C15", W, scen, None, ["a panic is recovered by the harness around ExtAuthZFilter.Check and logged as an event no action of the specification accepts as well-formed"],
